@@ -60,17 +60,59 @@ var errInconclusive = fmt.Errorf("inconclusive")
 
 type consSvc struct{ n *cnode }
 
+// fault injection (suite fault): the next forwarded requests this node receives are answered as its plan says,
+// 'f' = fail without executing, 'l' = execute, then report a failure (the answer is lost).
+var errInjected = fmt.Errorf("injected: forwarded request failed")
+
+// gate returns what to do with a forwarded request: 0 pass, 'f' fail before, 'l' fail after executing.
+func (s *consSvc) gate(ctx context.Context) byte {
+	f := s.n.faults
+	if f == nil {
+		return 0
+	}
+	f.mu.Lock()
+	defer f.mu.Unlock()
+	if from, err := rpc.GetRequestSender(ctx); err != nil || from != f.caller {
+		return 0 // a forward on behalf of somebody else (a deposed leader passing the request on)
+	}
+	k := f.fwdSeen
+	f.fwdSeen++
+	if k < len(f.plan) {
+		return f.plan[k]
+	}
+	return 0
+}
+
+// faults: the plan applies to whoever leads (forwards are counted wherever they arrive).
+type faults struct {
+	mu      sync.Mutex
+	plan    string
+	caller  peer.ID // only this peer's forwards are counted and faulted
+	fwdSeen int
+}
+
+func (s *consSvc) run(ctx context.Context, f func() error) error {
+	switch s.gate(ctx) {
+	case 'f':
+		return errInjected
+	case 'l':
+		f()
+		return errInjected
+	}
+	return f()
+}
+
 func (s *consSvc) LogPin(ctx context.Context, in *api.Pin, out *struct{}) error {
-	return s.n.cc.LogPin(ctx, in)
+	return s.run(ctx, func() error { return s.n.cc.LogPin(ctx, in) })
 }
 func (s *consSvc) LogUnpin(ctx context.Context, in *api.Pin, out *struct{}) error {
-	return s.n.cc.LogUnpin(ctx, in)
+	return s.run(ctx, func() error { return s.n.cc.LogUnpin(ctx, in) })
 }
 func (s *consSvc) AddPeer(ctx context.Context, in peer.ID, out *struct{}) error {
-	return s.n.cc.AddPeer(ctx, in)
+	return s.run(ctx, func() error { return s.n.cc.AddPeer(ctx, in) })
 }
 func (s *consSvc) RmPeer(ctx context.Context, in peer.ID, out *struct{}) error {
-	return s.n.cc.RmPeer(ctx, in)
+	return s.run(ctx, func() error { return s.n.cc.RmPeer(ctx, in) })
 }
 
 type trackerSvc struct{}
@@ -88,6 +130,9 @@ type cnode struct {
 	up     bool
 	ready  chan string   // what the peer looked like at the instant Ready() fired: "<lvs>@<pinset>"
 	stop   chan struct{} // closed when the instance is shut down
+
+	faults *faults // shared by the peers of a world (suite fault)
+	gater  *blockGater
 }
 
 type cworld struct {
@@ -96,6 +141,7 @@ type cworld struct {
 	slash       bool
 	dir         string
 	slowCatchUp bool // one entry per AppendEntries: a joiner needs many round trips to catch up
+	fast        bool // suites fault / conc: short heartbeat (a failed forward sleeps 2 heartbeats)
 	retries     int
 	nodes       []*cnode
 	byID        map[peer.ID]int
@@ -136,6 +182,13 @@ func (w *cworld) raftCfg(n *cnode, init []int) *raft.Config {
 	cfg.RaftConfig.ElectionTimeout = 1000 * time.Millisecond
 	cfg.RaftConfig.LeaderLeaseTimeout = 500 * time.Millisecond
 	cfg.RaftConfig.CommitTimeout = 50 * time.Millisecond
+	if w.fast {
+		cfg.WaitForLeaderTimeout = 8 * time.Second
+		cfg.RaftConfig.HeartbeatTimeout = 400 * time.Millisecond
+		cfg.RaftConfig.ElectionTimeout = 400 * time.Millisecond
+		cfg.RaftConfig.LeaderLeaseTimeout = 300 * time.Millisecond
+		cfg.RaftConfig.CommitTimeout = 20 * time.Millisecond
+	}
 	if w.slowCatchUp {
 		cfg.RaftConfig.MaxAppendEntries = 1
 	}
@@ -157,7 +210,9 @@ func (w *cworld) ensureHost(n *cnode) error {
 	if n.h != nil {
 		return nil
 	}
-	h, err := libp2p.New(context.Background(), libp2p.Identity(n.priv), libp2p.ListenAddrStrings("/ip4/127.0.0.1/tcp/0"))
+	n.gater = &blockGater{}
+	h, err := libp2p.New(context.Background(), libp2p.Identity(n.priv), libp2p.ListenAddrStrings("/ip4/127.0.0.1/tcp/0"),
+		libp2p.ConnectionGater(n.gater))
 	if err != nil {
 		return err
 	}
@@ -1064,45 +1119,85 @@ func main() {
 	defer os.RemoveAll(scratch)
 	var mu sync.Mutex
 
+	par := 6
+	if v := atoi(a.Extra["par"]); v > 0 {
+		par = v
+	}
 	if a.Extra["stdin"] != "" {
+		// recorded scripts are independent of each other: run them side by side like the generated ones
 		sc := bufio.NewScanner(os.Stdin)
 		sc.Buffer(make([]byte, 1<<20), 1<<24)
 		k := 0
+		var wg sync.WaitGroup
+		sem := make(chan struct{}, par)
+		launch := func(f func()) {
+			wg.Add(1)
+			sem <- struct{}{}
+			go func() {
+				defer wg.Done()
+				defer func() { <-sem }()
+				f()
+			}()
+		}
 		for sc.Scan() {
 			f := strings.Fields(sc.Text())
 			if len(f) == 0 || strings.HasPrefix(f[0], "#") {
 				continue
 			}
 			if f[0] != "C17" {
+				mu.Lock()
 				out.Line("# skipped malformed-input")
+				mu.Unlock()
+				continue
+			}
+			if len(f) > 1 && f[1] == "j" {
+				if js, ok := parseJoin(f[2:]); ok && suite == "join" {
+					k++
+					tag := fmt.Sprintf("in%d", k)
+					launch(func() { runJoinScript(out, &mu, scratch, tag, js) })
+				} else if !ok {
+					mu.Lock()
+					out.Line("# skipped malformed-input")
+					mu.Unlock()
+				}
 				continue
 			}
 			s, hd, ok := parseScript(f[1:])
 			if !ok {
+				mu.Lock()
 				out.Line("# skipped malformed-input")
+				mu.Unlock()
 				continue
 			}
 			k++
-			if strings.HasPrefix(hd, "k") {
+			tag := fmt.Sprintf("in%d", k)
+			switch {
+			case strings.HasPrefix(hd, "k"):
 				if suite == "cluster" {
-					runClusterScript(out, &mu, scratch, fmt.Sprintf("in%d", k), s, strings.HasSuffix(hd, "rp=1"))
+					repin := strings.HasSuffix(hd, "rp=1")
+					launch(func() { runClusterScript(out, &mu, scratch, tag, s, repin) })
 				}
-				continue
-			}
-			if suite == "consensus" {
-				runConsScript(out, &mu, scratch, fmt.Sprintf("in%d", k), s)
+			case strings.HasPrefix(hd, "f"):
+				if suite == "fault" {
+					launch(func() { runFaultScript(out, &mu, scratch, tag, s) })
+				}
+			case strings.HasPrefix(hd, "x"):
+				if suite == "conc" {
+					launch(func() { runConcScript(out, &mu, scratch, tag, s) })
+				}
+			default:
+				if suite == "consensus" {
+					launch(func() { runConsScript(out, &mu, scratch, tag, s) })
+				}
 			}
 		}
+		wg.Wait()
 		return
 	}
 
 	n := a.N
 	if n < 0 {
 		n = 30
-	}
-	par := 6
-	if v := atoi(a.Extra["par"]); v > 0 {
-		par = v
 	}
 	root := common.NewRng(common.Seed())
 	var wg sync.WaitGroup
@@ -1120,6 +1215,12 @@ func main() {
 			if suite == "cluster" {
 				s, repin := genClusterScript(r, a.Tier)
 				runClusterScript(out, &mu, scratch, fmt.Sprintf("s%d", k), s, repin)
+			} else if suite == "join" {
+				runJoinScript(out, &mu, scratch, fmt.Sprintf("s%d", k), genJoinScript(r, k))
+			} else if suite == "conc" {
+				runConcScript(out, &mu, scratch, fmt.Sprintf("s%d", k), genConcScript(r, k, a.Tier))
+			} else if suite == "fault" {
+				runFaultScript(out, &mu, scratch, fmt.Sprintf("s%d", k), genFaultScript(r, k, a.Tier))
 			} else {
 				runConsScript(out, &mu, scratch, fmt.Sprintf("s%d", k), genConsScript(r, a.Tier))
 			}
